@@ -19,7 +19,7 @@ def run(tier, seed):
     if not ck.proof['driver_ok']:
         ck.notes['driver'] = 'unavailable: model-side runs skipped, searching with the implementation-side oracles only'
     import soupsieve as sv
-    n = 80 if tier == 'quick' else 2000
+    n = 140 if tier == 'quick' else 2000
     custom = {':--cust': 'p, div > span', ':--h': 'li, b'}
     scs = []
     for profile in ('core', 'forms', 'ns', 'langdir'):
@@ -34,7 +34,13 @@ def run(tier, seed):
             targets = [top] + rnd.sample(elements, min(4, len(elements)))
             for _ in range(5):
                 s = sg.selector(1)
-                if rnd.random() < 0.2:
+                if rnd.random() < 0.25:
+                    # plain type selectors for names that occur in the tree, in any ASCII case (every alternative ends in a type)
+                    nm_ = [n_ for n_ in pools['names'] if n_.replace('-', '').isalnum() and n_.isascii()]
+                    if nm_:
+                        s = ', '.join(rnd.choice([n_, n_.lower(), n_.upper()]) if rnd.random() < 0.7 else 'div > ' + n_
+                                      for n_ in rnd.sample(nm_, min(len(nm_), rnd.choice([1, 1, 2]))))
+                elif rnd.random() < 0.2:
                     s = rnd.choice([':scope', ':not(:scope)', ':is(:scope, p)', '&', ':scope > *', '* > :scope', ':not(&)', 'div:scope, p',
                                     ':scope:not(.x)', ':where(:scope) ~ *'])
                 use_custom = ':--' in s or rnd.random() < 0.3
